@@ -31,36 +31,52 @@ import (
 	"verifharness/vhdr"
 )
 
+// hgate parks the goroutine that asks the gated header for its Height():
+// stage 1 - the 2nd call made from setLocalHead (the comparison with the store head);
+// stage 2 - the first call made from sync() afterwards (its "already synced?" test,
+// right before ranges.RemoveUpTo).
 type hgate struct {
-	mu     gosync.Mutex
-	armed  bool
-	n      int
-	parked chan struct{}
-	rel    chan struct{}
+	mu      gosync.Mutex
+	stage   int // 1, 2; 0 = off
+	n       int
+	parked1 chan struct{}
+	rel1    chan struct{}
+	parked2 chan struct{}
+	rel2    chan struct{}
+}
+
+func newGate() *hgate {
+	return &hgate{stage: 1, parked1: make(chan struct{}), rel1: make(chan struct{}), parked2: make(chan struct{}), rel2: make(chan struct{})}
 }
 
 func (g *hgate) hit() {
 	g.mu.Lock()
-	if !g.armed {
+	if g.stage == 0 {
 		g.mu.Unlock()
 		return
 	}
 	pc := make([]uintptr, 6)
 	n := runtime.Callers(3, pc) // 0 Callers, 1 hit, 2 Height, 3 = Height's caller
 	f, _ := runtime.CallersFrames(pc[:n]).Next()
-	if !strings.Contains(f.Function, "setLocalHead") {
+	switch {
+	case g.stage == 1 && strings.Contains(f.Function, "setLocalHead"):
+		g.n++
+		if g.n != 2 { // 1st: the metrics argument; 2nd: the comparison with the store head
+			g.mu.Unlock()
+			return
+		}
+		g.stage = 2
 		g.mu.Unlock()
-		return
-	}
-	g.n++
-	if g.n != 2 { // 1st: the metrics argument; 2nd: the comparison with the store head
+		close(g.parked1)
+		<-g.rel1
+	case g.stage == 2 && strings.HasSuffix(f.Function, ".sync"):
+		g.stage = 0
 		g.mu.Unlock()
-		return
+		close(g.parked2)
+		<-g.rel2
+	default:
+		g.mu.Unlock()
 	}
-	g.armed = false
-	g.mu.Unlock()
-	close(g.parked)
-	<-g.rel
 }
 
 // PH is vhdr.Header with a Height() that can park its caller.
@@ -193,7 +209,7 @@ func parkWitness(t *testing.T, reg *vhdr.Registry, w *emit.Writer) {
 	}
 
 	// 1. gossip 19 is verified against 17 and parks inside setLocalHead
-	gate := &hgate{armed: true, parked: make(chan struct{}), rel: make(chan struct{})}
+	gate := newGate()
 	x19 := at(19)
 	x19.g = gate
 	res19 := make(chan error, 1)
@@ -202,7 +218,7 @@ func parkWitness(t *testing.T, reg *vhdr.Registry, w *emit.Writer) {
 	var early error
 	waitFor(func() bool {
 		select {
-		case <-gate.parked:
+		case <-gate.parked1:
 			parked = true
 			return true
 		case early = <-res19:
@@ -233,8 +249,20 @@ func parkWitness(t *testing.T, reg *vhdr.Registry, w *emit.Writer) {
 	waitFor(func() bool { return storeHead() == 20 })
 	// 4. caller 2: the getter fails, the subjective head is returned
 	o2 := headCall()
-	// 5. the parked verifier call resumes; caller 1 finishes
-	close(gate.rel)
+	// 5. the parked verifier call resumes: pending.Add, wantSync; the sync loop is held at its
+	//    "already synced?" test; caller 1 finishes
+	close(gate.rel1)
+	parked2 := false
+	if parked {
+		parked2 = waitFor(func() bool {
+			select {
+			case <-gate.parked2:
+				return true
+			default:
+				return false
+			}
+		})
+	}
 	select {
 	case <-res19:
 	case <-time.After(10 * time.Second):
@@ -246,15 +274,31 @@ func parkWitness(t *testing.T, reg *vhdr.Registry, w *emit.Writer) {
 	}
 	// 6. caller 3 starts after callers 1 and 2 returned
 	o3 := headCall()
+	// 7. the sync loop drops the stale pending entry; caller 4
+	close(gate.rel2)
+	gate.mu.Lock()
+	gate.stage = 0
+	gate.mu.Unlock()
+	time.Sleep(50 * time.Millisecond)
+	waitFor(func() bool {
+		c, cancel := context.WithTimeout(context.Background(), time.Second)
+		defer cancel()
+		h, err := sy.Head(c)
+		return err == nil && h.H >= storeHead()
+	})
+	o4 := headCall()
+	if parked && !parked2 {
+		t.Logf("F19 witness: the sync loop did not reach its already-synced test while held (sync() changed?)")
+	}
 
 	tail := "(TOk " + emit.Some(reg.Term(&at(15).Header)) + ")"
 	in := fmt.Sprintf("(HIn %s GFail %s %s %s)", emit.Z(int64(5*time.Second)), noBif, tail, noBif)
 	params := fmt.Sprintf("(Params %s %s %s %s %s)", emit.Z(int64(trust)), emit.Z(int64(block)), emit.Z(0),
 		emit.Z(int64(header.VerifClockDrift())), emit.Z(int64(hsync.NetworkHeadRequestTimeout)))
-	op := fmt.Sprintf("(KPark %s %s %s %s %s %s %s)", emit.B(parked), reg.Term(&at(19).Header), reg.Term(&at(20).Header), in, o1, o2, o3)
+	op := fmt.Sprintf("(KPark %s %s %s %s %s %s %s %s)", emit.B(parked), reg.Term(&at(19).Header), reg.Term(&at(20).Header), in, o1, o2, o3, o4)
 	term := fmt.Sprintf("Case19 %s 0 false %s %s %s", params, emit.Some(reg.Term(&at(17).Header)), emit.Z(start.UnixNano()), emit.List([]string{op}))
-	w.Add(term, map[string]any{"witness": "F19", "parked": parked, "results": []string{o1, o2, o3}, "store_head": storeHead()},
+	w.Add(term, map[string]any{"witness": "F19", "parked": parked, "sync_held": parked2, "results": []string{o1, o2, o3, o4}, "store_head": storeHead()},
 		fmt.Sprintf("park/%v", parked), true)
 	w.Count("op", "park")
-	w.Count("park_witness", fmt.Sprintf("parked=%v caller1=%s caller2=%s caller3=%s", parked, o1, o2, o3))
+	w.Count("park_witness", fmt.Sprintf("parked=%v sync_held=%v caller1=%s caller2=%s caller3=%s caller4=%s", parked, parked2, o1, o2, o3, o4))
 }
